@@ -63,7 +63,7 @@ def build_harness(flavor="plain", sources=None, name="fsl_harness"):
     """Builds (or reuses) the harness for the current content of /repo/include."""
     fl = FLAVORS[flavor]
     if sources is None:
-        sources = sorted(f for f in os.listdir(HARNESS) if f.endswith(".cpp"))
+        sources = sorted(f for f in os.listdir(HARNESS) if f.endswith(".cpp") and f != "stubs_flow.cpp")
     key = _tree_hash([os.path.join(REPO, "include"), HARNESS],
                      flavor + " ".join(fl["flags"]) + " ".join(sources) + name)
     d = os.path.join(CACHE, "h-" + key)
@@ -179,7 +179,7 @@ def run_tlc(module, cfg, env=None, workers=1, timeout=900, cwd=TLA, extra=None, 
     elif re.search(r"Invariant \S+ is violated", r.out):
         r.error = "invariant"
         r.error_text = re.search(r"Invariant (\S+) is violated", r.out).group(1)
-    elif "Temporal properties were violated" in r.out:
+    elif re.search(r"Temporal propert(y|ies) .*violated", r.out):
         r.error = "property"
     elif "Deadlock reached" in r.out:
         r.error = "deadlock"
@@ -210,7 +210,7 @@ def write_cases(cases, path):
             f.write(json.dumps(c, separators=(",", ":")) + "\n")
 
 
-def run_cases(exe, cases, workdir, nproc=NCPU, timeout_ms=10000, tag="t"):
+def run_cases(exe, cases, workdir, nproc=NCPU, timeout_ms=10000, tag="t", env=None):
     """Splits the cases in nproc chunks, runs one harness process per chunk.  Returns trace paths."""
     os.makedirs(workdir, exist_ok=True)
     cases = list(cases)
@@ -224,8 +224,11 @@ def run_cases(exe, cases, workdir, nproc=NCPU, timeout_ms=10000, tag="t"):
         jobs.append((cp, tp))
 
     def go(j):
+        e = dict(os.environ)
+        if env:
+            e.update(env)
         p = subprocess.run([exe, "--cases", j[0], "--out", j[1], "--timeout", str(timeout_ms)],
-                           capture_output=True, text=True)
+                           capture_output=True, text=True, env=e)
         if p.returncode != 0:
             raise MachineryError("harness failed on %s: %s" % (j[0], p.stderr[-2000:]))
         return j[1]
@@ -263,42 +266,109 @@ class Violation:
         return "Violation(%s %s case=%s)" % (self.prop, self.conjunct, self.case_id)
 
 
+def _segments(path):
+    """[(start_line, end_line_exclusive, case_id)] of the Reset-delimited segments (1-based lines)."""
+    segs = []
+    with open(path) as f:
+        lines = f.readlines()
+    cur = None
+    for i, ln in enumerate(lines, 1):
+        if ln.startswith('{"e":"Reset"'):
+            if cur:
+                segs.append((cur[0], i, cur[1]))
+            try:
+                cid = json.loads(ln).get("case")
+            except ValueError:
+                cid = None
+            cur = (i, cid)
+    if cur:
+        segs.append((cur[0], len(lines) + 1, cur[1]))
+    return segs, lines
+
+
 def validate(traces, checks, module="FlowTrace.tla", cfg="FlowTrace.cfg", timeout=1500, nproc=NCPU,
-             xmx="3g"):
+             xmx="3g", diag=True, max_cuts=25):
     """Validates traces against a trace specification.
 
     Returns (accepted_lines, failures): failures is a list of (trace_path, conjunct, line, case_id).
-    Strict mode decides; diagnosis mode (same spec, Diag = TRUE) names every failing conjunct.
+    Strict mode decides.  With diag (specifications built with Chk), a second run in diagnosis
+    mode names every failing conjunct.  Without, the rejected segment is cut out and the rest of
+    the trace is validated again, so that every remaining execution is still examined.
     """
     env0 = {("CHK_" + c): ("1" if c in checks else "0") for c in ALL_CHECKS}
+
+    def classify(r, tp):
+        if r.error is None:
+            return None
+        if r.error == "postcondition":
+            return ("Rejected", r.rejected_line)
+        if r.error == "invariant":
+            return ("Invariant:" + r.error_text, None)
+        raise MachineryError("TLC failed on %s (%s):\n%s" % (tp, r.error, r.error_text or r.out[-2500:]))
 
     def one(tp):
         n = sum(1 for _ in open(tp))
         if n == 0:
-            return tp, n, [], None
+            return tp, n, [], 0, 0
         env = dict(env0, TRACE=tp, DIAG="0")
         r = run_tlc(module, cfg, env=env, workers=1, timeout=timeout, xmx=xmx)
-        if r.error is None:
-            return tp, n, [], r
-        if r.error != "postcondition":
-            raise MachineryError("TLC failed on %s (%s):\n%s" % (tp, r.error, r.error_text or r.out[-2500:]))
-        # rejected: re-run in diagnosis mode to name every failing conjunct (and confirm)
-        env = dict(env0, TRACE=tp, DIAG="1")
-        d = run_tlc(module, cfg, env=env, workers=1, timeout=timeout, xmx=xmx)
-        if d.error not in (None,):
-            raise MachineryError("TLC diagnosis failed on %s (%s):\n%s" % (tp, d.error, d.error_text or d.out[-2500:]))
-        if not d.failed:
-            raise MachineryError("strict run rejected %s at line %s but diagnosis names no conjunct:\n%s"
-                                 % (tp, r.rejected_line, d.out[-1500:]))
-        fails = [(tp, cj, ln, _case_of_line(tp, ln)) for cj, ln in d.failed]
-        return tp, n, fails, r
+        states, gen = r.distinct, r.generated
+        c = classify(r, tp)
+        if c is None:
+            return tp, n, [], states, gen
+        if diag:
+            # rejected: re-run in diagnosis mode to name every failing conjunct (and confirm)
+            env = dict(env0, TRACE=tp, DIAG="1")
+            d = run_tlc(module, cfg, env=env, workers=1, timeout=timeout, xmx=xmx)
+            if d.error not in (None,):
+                raise MachineryError("TLC diagnosis failed on %s (%s):\n%s" % (tp, d.error, d.error_text or d.out[-2500:]))
+            if not d.failed:
+                raise MachineryError("strict run rejected %s at line %s but diagnosis names no conjunct:\n%s"
+                                     % (tp, r.rejected_line, d.out[-1500:]))
+            fails = [(tp, cj, ln, _case_of_line(tp, ln)) for cj, ln in d.failed]
+            return tp, n, fails, states, gen
+        # cut-and-continue
+        fails = []
+        cur = tp
+        for k in range(max_cuts):
+            segs, lines = _segments(cur)
+            what, line = c
+            if line is None:
+                # an invariant of the model failed in some state: find the line from the trace output
+                mm = re.findall(r"/\\ l = (\d+)", r.out)
+                line = int(mm[-1]) if mm else 1
+            seg = [sg for sg in segs if sg[0] <= line < sg[1]]
+            if not seg:
+                seg = [segs[-1]]
+            sg = seg[0]
+            # confirm on the segment alone
+            alone = tp + ".seg%d" % k
+            with open(alone, "w") as f:
+                f.writelines(lines[sg[0] - 1:sg[1] - 1])
+            r2 = run_tlc(module, cfg, env=dict(env0, TRACE=alone, DIAG="0"), workers=1, timeout=timeout, xmx=xmx)
+            c2 = classify(r2, alone)
+            if c2 is not None:
+                fails.append((alone, c2[0] + ("@%d" % (c2[1] or 0)), (c2[1] or 1), sg[2]))
+            rest = tp + ".rest%d" % k
+            with open(rest, "w") as f:
+                f.writelines(lines[:sg[0] - 1] + lines[sg[1] - 1:])
+            cur = rest
+            if sum(1 for _ in open(cur)) == 0:
+                break
+            r = run_tlc(module, cfg, env=dict(env0, TRACE=cur, DIAG="0"), workers=1, timeout=timeout, xmx=xmx)
+            states += r.distinct
+            gen += r.generated
+            c = classify(r, cur)
+            if c is None:
+                break
+        return tp, n, fails, states, gen
 
     with ThreadPoolExecutor(max_workers=nproc) as ex:
         res = list(ex.map(one, traces))
     lines = sum(r[1] for r in res)
     failures = [f for r in res for f in r[2]]
-    validate.last_states = sum(r[3].distinct for r in res if r[3] is not None)
-    validate.last_generated = sum(r[3].generated for r in res if r[3] is not None)
+    validate.last_states = sum(r[3] for r in res)
+    validate.last_generated = sum(r[4] for r in res)
     return lines, failures
 
 
